@@ -4,6 +4,7 @@ import CifModel.Lemmas.NumbRoundtrip
 import CifModel.Lemmas.NumbAutoinit
 import CifModel.Lemmas.StoreValue
 import CifModel.Lemmas.StoreInv
+import CifModel.Lemmas.NumbOk
 /-
   Property C07 — values stored in a CIF are read back identical.
 
@@ -181,6 +182,66 @@ end
 theorem C07_numb_in_list_full (v : V) (h : C07_constructible v) :
     C07_numbsConsistent parseFields v ∧ deserialize parseFields (ser v) = some (v, []) :=
   ⟨C07_numb_in_list v h, deserialize_ser parseFields v (C07_numb_in_list v h)⟩
+
+/-! ### bridge: what the API can construct, the store can hold -/
+
+/-- the fields of every number the API produces pass the CHECK constraints of item_value (`numbOk`) -/
+def C07_numbFieldsOk : V → Bool
+  | .numb _ t neg d su _ => numbOk t neg d su
+  | _ => true
+
+theorem C07_numbProduced_ok (v : V) (h : C07_numbProduced v) : C07_numbFieldsOk v = true := by
+  cases h with
+  | parsed q t f hp =>
+    have : Model.Numb.numbOfText q t = .numb q (Model.Numb.cstr t) f.neg f.digits f.su f.scale := by
+      unfold Model.Numb.numbOfText; rw [hp]
+    rw [this]
+    exact (Lemmas.NumbOk.parseNumb_numbOk t f hp).1
+  | init val su scale maxLead msp q q' t neg digits suD sc hi =>
+    have hp := Lemmas.NumbRoundtrip.initNumb_roundtrip val su scale maxLead msp q t neg digits suD sc hi
+    exact (Lemmas.NumbOk.parseNumb_numbOk t ⟨neg, digits, suD, sc⟩ hp).2
+  | autoinit val su rule msp q q' t neg digits suD sc ha =>
+    have hp : Model.Numb.parseNumb t = some ⟨neg, digits, suD, sc⟩ := by
+      unfold Model.Numb.autoinitNumb at ha
+      split at ha
+      · cases ha
+      · split at ha
+        · exact Lemmas.NumbRoundtrip.initNumb_roundtrip _ _ _ _ _ q t neg digits suD sc ha
+        · exact Lemmas.NumbRoundtrip.initNumb_roundtrip _ _ _ _ _ q t neg digits suD sc ha
+    exact (Lemmas.NumbOk.parseNumb_numbOk t ⟨neg, digits, suD, sc⟩ hp).2
+
+/-- the one limit of the store that construction does not guarantee: the serialised form of a list or table must be
+    smaller than the address space (2^64 bytes) — beyond it `cif_value_serialize` cannot succeed on any machine -/
+def C07_fits : V → Prop
+  | .lst vs => widthSum (ser (.lst vs)) < SZ
+  | .tbl es => widthSum (ser (.tbl es)) < SZ
+  | _ => True
+
+/-- **C07_constructible_wf** — the bridge between the two families of theorems: every value the API can construct (and
+    that fits the address space) satisfies `wfValue`, the hypothesis of the column and store theorems -/
+theorem C07_constructible_wf (v : V) (h : C07_constructible v) (hf : C07_fits v) : wfValue parseFields v = true := by
+  have hn := C07_numb_in_list v h
+  cases v with
+  | unk => rfl
+  | na => rfl
+  | chr q t => rfl
+  | numb q t n d su sc =>
+    have := C07_numbProduced_ok _ (by simpa [C07_constructible] using h)
+    simpa [wfValue, C07_numbFieldsOk] using this
+  | lst vs =>
+    simp only [C07_fits] at hf
+    simp only [C07_numbsConsistent, numbsParse] at hn
+    simp [wfValue, hf, hn]
+  | tbl es =>
+    simp only [C07_fits] at hf
+    simp only [C07_numbsConsistent, numbsParse] at hn
+    simp [wfValue, hf, hn]
+
+/-- … so the column round trip holds for every constructible value: the row the C binds passes the CHECK constraints and
+    GET_VALUE_PROPS rebuilds the value from it -/
+theorem C07_constructible_columns (v : V) (h : C07_constructible v) (hf : C07_fits v) :
+    ∃ row, toColumns v = some row ∧ checks row = true ∧ fromColumns parseFields row = some v :=
+  C07_columns_roundtrip parseFields v (C07_constructible_wf v h hf)
 
 /-- … hence **every constructible value survives serialisation**, whatever its depth and whichever number functions
     built its numbers -/
